@@ -7,6 +7,7 @@ import (
 	"go/constant"
 	"go/token"
 	"go/types"
+	"sort"
 	"strings"
 
 	"golang.org/x/tools/go/ssa"
@@ -912,4 +913,86 @@ func RelEdge(isX, isY func(ssa.Value) bool, rel int) EdgeFilter {
 		}
 		return succ == 1
 	}
+}
+
+// Canon renders a canonical symbolic expression for v: parameters by position, constants by value,
+// operators and resolved callees applied to canonical operands, loop-carried phis as μ(name), loads as
+// *addr. Two sibling functions computing the same function of their inputs yield equal strings.
+func Canon(v ssa.Value) string { return canon(v, map[ssa.Value]bool{}, 0) }
+
+func canon(v ssa.Value, seen map[ssa.Value]bool, d int) string {
+	if v == nil {
+		return "nil"
+	}
+	if d > 20 {
+		return "…"
+	}
+	switch x := v.(type) {
+	case *ssa.Const:
+		if x.Value == nil {
+			return "nil"
+		}
+		return x.Value.ExactString()
+	case *ssa.Parameter:
+		return ParamName(x)
+	case *ssa.Phi:
+		if seen[x] {
+			return "μ(" + x.Comment + ")"
+		}
+		seen[x] = true
+		var es []string
+		for _, e := range x.Edges {
+			es = append(es, canon(e, seen, d+1))
+		}
+		delete(seen, x)
+		sort.Strings(es)
+		return "φ[" + x.Comment + "](" + strings.Join(es, ",") + ")"
+	case *ssa.BinOp:
+		a, b := canon(x.X, seen, d+1), canon(x.Y, seen, d+1)
+		switch x.Op {
+		case token.ADD, token.MUL, token.AND, token.OR, token.XOR, token.EQL, token.NEQ:
+			if b < a {
+				a, b = b, a
+			}
+		}
+		return "(" + a + " " + x.Op.String() + " " + b + ")"
+	case *ssa.UnOp:
+		return x.Op.String() + canon(x.X, seen, d+1)
+	case *ssa.Convert:
+		return canon(x.X, seen, d+1)
+	case *ssa.ChangeType:
+		return canon(x.X, seen, d+1)
+	case *ssa.Call:
+		var as []string
+		for _, a := range x.Common().Args {
+			as = append(as, canon(a, seen, d+1))
+		}
+		return CalleeName(x.Common()) + "(" + strings.Join(as, ",") + ")"
+	case *ssa.FieldAddr:
+		return canon(x.X, seen, d+1) + "." + fieldName(x.X.Type(), x.Field)
+	case *ssa.Field:
+		return canon(x.X, seen, d+1) + "." + fieldName(x.X.Type(), x.Field)
+	case *ssa.IndexAddr:
+		return canon(x.X, seen, d+1) + "[" + canon(x.Index, seen, d+1) + "]"
+	case *ssa.Slice:
+		return "slice(" + canon(x.X, seen, d+1) + ")"
+	case *ssa.Alloc:
+		// a local cell: describe by what is stored into it
+		var ss []string
+		if seen[x] {
+			return "cell(" + x.Comment + ")"
+		}
+		seen[x] = true
+		for _, ref := range *x.Referrers() {
+			if st, ok := ref.(*ssa.Store); ok && st.Addr == x {
+				ss = append(ss, canon(st.Val, seen, d+1))
+			}
+		}
+		delete(seen, x)
+		sort.Strings(ss)
+		return "cell[" + x.Comment + "]{" + strings.Join(ss, "|") + "}"
+	case *ssa.Extract:
+		return canon(x.Tuple, seen, d+1) + fmt.Sprintf("#%d", x.Index)
+	}
+	return fmt.Sprintf("%T", v)
 }
